@@ -6,7 +6,7 @@ from fractions import Fraction as F
 
 from fv.gen import geo
 
-TAGS = ["#", "#", "LUT", "DSP", "BRAM", "fixed"]
+TAGS = ["#", "#", "LUT", "DSP", "BRAM", "fixed", "BRAM_36k", "_dsp", "io_1"]
 STRUCTS = ["empty", "full_cover", "ring", "border", "corners", "chain", "tjunction", "single_gap", "random", "random", "random"]
 INVALID = ["overlap", "outside", "ground_tag", "nonpositive", "unknown_key", "missing_dim", "bad_tag", "overlap_fixed"]
 
